@@ -274,6 +274,9 @@ def sym(name):
 
 
 # ------------------------------------------------------------------ generic rebuild (substitution)
+_LIN_POST = [None]
+
+
 def rebuild(t, f, memo=None):
     """Rebuild term t bottom-up, mapping atoms through f(atom) -> term or None."""
     if memo is None:
@@ -285,6 +288,8 @@ def rebuild(t, f, memo=None):
     res = const(t.a[0])
     for a, c in t.a[1]:
         res = add(res, scale(rebuild_atom(a, f, memo), c))
+    if _LIN_POST[0] is not None:
+        res = _LIN_POST[0](res)
     memo[t.id] = res
     return res
 
@@ -338,7 +343,88 @@ def _rebuild_atom(a, f, memo):
         return atom(mk("trunc", a.a[0], a.a[1], rb(a.a[2])))
     if tag == "sext":
         return atom(mk("sext", a.a[0], rb(a.a[1])))
+    if tag == "tab":
+        return tab(a.a[0], tuple(rb(x) for x in a.a[1]))
     raise ValueError(a)
+
+
+# ------------------------------------------------------------------ finite tables over a residue
+def tab(r_atom, values):
+    """value selected by a residue R = X % C (0 <= R < C): values[R]"""
+    if all(v is values[0] for v in values):
+        return values[0]
+    return atom(mk("tab", r_atom, tuple(values)))
+
+
+def residue(t):
+    """X - C*(X / C) is X % C: rewritten inside a linear term (the remaining length after a loop that consumed blocks of C)"""
+    if t.k != "lin":
+        return t
+    for a, c in t.a[1]:
+        if a.k == "udiv":
+            X_, C_ = a.a[0], a.a[1]
+            m = None
+            for m_ in (1, 2, 3, 4):
+                if c == (M - C_ * m_) % M:
+                    m = m_
+            if m is None:
+                continue
+            rest = add(add(t, scale(atom(a), C_ * m)), scale(X_, m), -1)        # t + C*m*U - m*X
+            xs = {x.id for x, _ in X_.a[1]}
+            if any(x.id in xs or x is a for x, _ in rest.a[1]):
+                continue
+            return residue(add(rest, scale(atom(mk("umod", X_, C_)), m)))
+    return t
+
+
+def specialise(t, r_atom, r):
+    """t with the residue known to be r: tables over that residue collapse to their r-th entry"""
+    def f(a):
+        if a.k == "tab" and a.a[0] is r_atom:
+            return specialise(a.a[1][r], r_atom, r)
+        return None
+    return rebuild(t, f, {})
+
+
+def tabulate(t):
+    """Canonical form of case distinctions on a residue R = X % C: a `switch (R)` (with or without fall-through) and a chain of
+    `if (R > k)` / `if (R == k)` tests are both turned into the table of the C values the result takes for R = 0 .. C-1."""
+    memo = {}
+
+    def holds(op, x, y):
+        return {"<": x < y, "<=": x <= y, "==": x == y, "!=": x != y}[op]
+
+    def f(a):
+        if a.k == "switchout":
+            s_ = rebuild(a.a[0], f, memo)
+            R = single_atom(s_, "umod")
+            if R is not None and R.a[1] <= 16:
+                cases = dict(a.a[1])
+                vals = []
+                for r in range(R.a[1]):
+                    v = rebuild(cases[r] if r in cases else a.a[2], f, memo)
+                    vals.append(specialise(v, R, r))
+                return tab(R, tuple(vals))
+        if a.k == "ite":
+            c_ = rebuild(a.a[0], f, memo)
+            ca = single_atom(c_, "cmp")
+            if ca is not None:
+                for side in (1, 2):
+                    R = single_atom(ca.a[side], "umod")
+                    k_ = ca.a[3 - side]
+                    if R is not None and R.a[1] <= 16 and is_const(k_):
+                        tv, fv = rebuild(a.a[1], f, memo), rebuild(a.a[2], f, memo)
+                        vals = []
+                        for r in range(R.a[1]):
+                            h = holds(ca.a[0], r, k_.a[0]) if side == 1 else holds(ca.a[0], k_.a[0], r)
+                            vals.append(specialise(tv if h else fv, R, r))
+                        return tab(R, tuple(vals))
+        return None
+    _LIN_POST[0] = residue
+    try:
+        return rebuild(t, f, memo)
+    finally:
+        _LIN_POST[0] = None
 
 
 # ------------------------------------------------------------------ evaluator
@@ -750,6 +836,11 @@ class Evaluator:
 
         def out_of(i):
             """value of variable i after the loop: only the variables it (and the condition) depends on are part of its loop"""
+            if i == T and ivs:
+                # the canonical counter runs from 0 while t < B with B fixed: it ends at B
+                cb = single_atom(cond, "cmp")
+                if cb is not None and cb.a[0] == "<" and cb.a[1] is atom(lvatom(T)) and not deps(cb.a[2]):
+                    return cb.a[2]
             sl = frozenset(closure({i} | cdep))
             if sl not in cache:
                 cache[sl] = build(sl)
@@ -819,7 +910,7 @@ def summarise(fn):
     ev.run(fn.body, env)
     if "$ret" not in env:
         raise Unsupported("function does not return a value")
-    return env["$ret"], ev
+    return tabulate(env["$ret"]), ev
 
 
 def diff(a, b, path="result", seen=None):
@@ -912,6 +1003,13 @@ def diff_atom(x, y, path, seen):
         return diff(x.a[2], y.a[2], path + ".trunc", seen)
     if tag == "sext":
         return diff(x.a[1], y.a[1], path + ".sign-extended", seen)
+    if tag == "tab":
+        if x.a[0] is not y.a[0] or len(x.a[1]) != len(y.a[1]):
+            return "%s: case distinction on %s vs %s" % (path, show(x.a[0]), show(y.a[0]))
+        for r, (p, q) in enumerate(zip(x.a[1], y.a[1])):
+            d = diff(p, q, path + ".when(%s==%d)" % (show(x.a[0]), r), seen)
+            if d:
+                return d
     return "%s: %s vs %s" % (path, show(x), show(y))
 
 
@@ -942,6 +1040,8 @@ def show(t, depth=0):
         return "loop-result#%d" % t.a[1]
     if t.k == "switchout":
         return "switch-result"
+    if t.k == "tab":
+        return "by(%s){%s}" % (show(t.a[0], depth + 1), ",".join(show(v, depth + 2) for v in t.a[1][:4]))
     if t.k in ("xor", "and", "or"):
         return "%s(0x%x,%s)" % (t.k, t.a[0], ",".join(show(o, depth + 1) for o in t.a[1][:3]))
     return t.k
